@@ -148,6 +148,23 @@ def srcOut (cfg : Cfg) (op : String) (a : Array Nat) : Option (List String) :=
          | some .panic => ["items", "panic"]
          | some (.ok (n, h)) => ["items", "ok", toString n, toString h]))
     | _, _, _ => none
+  -- C19 / C14 / C15: selectors, privilege levels, descriptors
+  | "sel_new", [i, r] => if r < 4 then some (sVal (Src.SegmentSelector_new cfg (b16 i) (b8 r))) else none
+  | "sel_index", [s] => some (sVal (Src.SegmentSelector_index cfg (b16 s)))
+  | "sel_rpl", [s] => some (sR (Src.SegmentSelector_rpl cfg (b16 s)))
+  | "sel_set_rpl", [s, r] =>
+    if r < 4 then
+      some (match Src.SegmentSelector_set_rpl cfg (b16 s) (b8 r) with
+        | .ok (_, v) => ["ok", toString v.toNat]
+        | .panic => ["panic"])
+    else none
+  | "pl_from_u16", [v] => some (sR (Src.PrivilegeLevel_from_u16 cfg (b16 v)))
+  | "tss_desc", [ptr] =>
+    some (match Src.Descriptor_tss_segment_unchecked cfg (b64 ptr) with
+      | .ok (_, lo, hi) => ["sys", toString lo.toNat, toString hi.toNat]
+      | .panic => ["panic"])
+  | "desc_dpl", [kind, lo, hi] =>
+    some (sR (Src.Descriptor_dpl cfg (if kind == 0 then (0#8, b64 lo, 0#64) else (1#8, b64 lo, b64 hi))))
   | "rpt_pages", [r, page] =>
     -- C20: the hook `verif_table_pages(page: Page<Size4KiB>, R)` prints p3_page, p2_page, p1_page
     some (sVal (Src.rec_p3_page cfg (b64 size4K) (b64 page) (b16 r)) ++ sVal (Src.rec_p2_page cfg (b64 size4K) (b64 page) (b16 r))
